@@ -18,7 +18,7 @@ Class NumOps := {
   f0 : F; f1 : F;
   fadd : F -> F -> F; fsub : F -> F -> F; fmul : F -> F -> F; fdiv : F -> F -> F;
   fopp : F -> F; finv : F -> F;
-  fabs : F -> F; fsqrt : F -> F;
+  fabs : F -> F; fsqrt : F -> F; fceil : F -> F;
   fofZ : Z -> F;
   feqb : F -> F -> bool; fltb : F -> F -> bool; fleb : F -> F -> bool
 }.
@@ -163,10 +163,22 @@ End CylCores.
 
 (* ------------------------------------------------------------------ CylinderSegment
    row: cs_r, cs_phi = sqrt / arctan2 of the observer as numpy computed them; (cs_c, cs_s) = cos/sin of cs_phi *)
+(* the prologue of BHJM_cylinder_segment (commit 526c29b): section angles (degrees) reduced by whole turns into [-360, 360]
+     turns = where(phi2 > 360, ceil((phi2-360)/360), where(phi1 < -360, -ceil((-360-phi1)/360), 0)) *)
+Definition seg_turns (phi1 phi2 : F) : F :=
+  let c := fofZ 360 in
+  if c <? phi2 then fceil ((phi2 - c) / c)
+  else if phi1 <? - c then - fceil ((- c - phi1) / c)
+  else f0.
+Definition seg_reduce (phi1 phi2 : F) : F * F :=
+  let t := seg_turns phi1 phi2 in (phi1 - fofZ 360 * t, phi2 - fofZ 360 * t).
+
 Record seg_row := { cs_r : F; cs_phi : F; cs_phio2 : F (* phi - sign(phi)*2*pi as computed *);
                     cs_c : F; cs_s : F; cs_z : F;
                     cs_r1 : F; cs_r2 : F; cs_h : F; cs_phi1 : F; cs_phi2 : F;   (* dimension, degrees *)
-                    cs_phi1r : F; cs_phi2r : F;                                  (* phi / 180 * pi as computed *)
+                    cs_red1 : F; cs_red2 : F;       (* the section angles reduced into [-360, 360] by the HARNESS's own rule *)
+                    cs_phi1r : F; cs_phi2r : F;     (* cs_red / 180 * pi as binary64 computes it *)
+                    cs_pi : F;                      (* binary64 pi *)
                     cs_pol : vec; cs_pxy : F; cs_pabs : F (* sqrt(px^2+py^2+pz^2) as computed *);
                     cs_dphi : F (* only used by the 360-degree fallback to Cylinder *) }.
 
@@ -175,8 +187,11 @@ Definition close12 (a b : F) : bool := isclose a b t_seg_close_r t_seg_close_a. 
 Definition seg_masks (r : seg_row) : bool * bool :=     (* (mask_not_on_surf, mask_inside) *)
   let r1 := fabs (cs_r1 r) in let r2 := fabs (cs_r2 r) in let h := fabs (cs_h r) in
   let z1 := (- h) / two in let z2 := h / two in
-  let phi1 := cs_phi1r r in
-  let phi2 := cs_phi2r r in
+  (* degrees reduced by the model's transcription of the prologue; the radians are the binary64 values handed in for the
+     harness's reduction when both agree, the exact quotient otherwise (then the masks differ visibly) *)
+  let '(d1, d2) := seg_reduce (cs_phi1 r) (cs_phi2 r) in
+  let phi1 := if d1 =? cs_red1 r then cs_phi1r r else d1 / fofZ 180 * cs_pi r in
+  let phi2 := if d2 =? cs_red2 r then cs_phi2r r else d2 / fofZ 180 * cs_pi r in
   let rr := cs_r r in let z := cs_z r in
   let phio1 := cs_phi r in
   let phio2 := cs_phio2 r in
